@@ -41,6 +41,10 @@ CHECKS = {
    technique="bounded exhaustive enumeration (E1) of all 2x2 tables up to a total (ints, numpy ints, floats) and all short obs/fcst vectors over an order-type alphabet incl. NaN, 25 metrics x 8 bin types, against exact-fraction formulas; swap / complement symmetries and perfect-forecast relation on every case; realised tables through the CLI",
    text="Every table with 1<=total<=8 (thorough 20) in 4 number forms through compute_from_abcd; every vector pair of length <=2 (thorough 3) over {0, 1, 1.5, 2, 3, NaN} against thresholds (1,2) for all 8 bin types through _compute_abcd and compute_from_obs_fcst: counts equal the documented events over exactly the valid pairs, sum = number of valid pairs, swapping obs/fcst swaps b and c, complementing the event swaps a and d, perfect forecasts attain the perfect value where defined, undefined scores are NaN; every table with total<=4 (thorough 7) realised as a text file whose event / non-event values sit on the threshold wherever the bin type allows, plus a pair with a missing forecast, through -m <metric> -r .. -b .. -type csv.",
    note="trusts: mc/ref/metrics_cat.py; numpy's masked constant is accepted as NaN; the all-zero table only through empty vectors"),
+ "C08": dict(level="exploration", design="5/C08",
+   technique="bounded exhaustive enumeration (E1) of probability/observation vectors (incl. 0, 1, bin edges, constant observations) and of small probabilistic datasets (stored vs ensemble-derived thresholds and quantile levels, 8 bin types, missing cells and members) against plain-Python reference definitions on the reference dataset model's valid cases",
+   text="Formula level: all (p, o) vectors of length <=3 (thorough 4) over p in {0,.05,.1,.25,.3,.5,.95,1} x o in {0,1} through compute_from_obs_fcst of bs, bsrel, bsres, bsunc, bss, bssrel, bssres, with the identities BS = REL - RES + UNC (one p per bin) and BS(event) = BS(complement). Data level (in-memory, text and NetCDF inputs): a file storing cdf columns at thresholds {1,3}, quantile columns {.1,.9}, three members and pit; requests at stored and non-stored thresholds / levels (ensemble fraction <= t, type-9 quantile), all 8 bin types, dev(1) (thorough dev(2)) over missing cells incl. single members: get_p (event probability P(<=upper) - P(<=lower), observed event), bs family, ign0, spherical, marginalratio, threshold, quantilescore, quantile, quantilecoverage, spread, spreadskillratio, pit, pithistdev/slope/shape on axes no / leadtime / location.",
+   note="trusts: mc/ref/metrics_prob.py and mc/ref/dataset.py; a quantile from an ensemble with a missing member may be missing; mutually inconsistent stored/ensemble CDFs (negative event probabilities) are not generated"),
 }
 
 def main():
